@@ -331,7 +331,7 @@ def torch_pipeline(ctx):
         a = actual.get(p)
         ctx.check(p is not None and a is not None and astq.text(a) == "options.force_as", R, tool, astq.enclosing_stmt(pm, site),
                   "the dataset's container type is options.force_as",
-                  "the container type used by the dataset (%s) is %s, not options.force_as" % (attr_roles["force_as"], astq.text(a) if a is not None else None))
+                  "the container type used by the dataset (%s) is %s, not options.force_as" % (attr_roles["force_as"], astq.text(a) if a is not None else None), structural=True)
     attr = attr_roles["computer"]
     p = attr2param.get(attr)
     a = actual.get(p)
@@ -600,7 +600,7 @@ def seed(ctx):
     ctx.need(len(seeds) >= 1, R, "np.random.seed call not found in the kaldi tool")
     s = seeds[0]
     ctx.check(len(s.args) == 1 and astq.text(s.args[0]) == "options.seed", R, f, s, "NumPy's generator is seeded with --seed",
-              "np.random.seed is called with %s, not options.seed" % astq.text(s.args[0] if s.args else MISSING(s)))
+              "np.random.seed is called with %s, not options.seed" % astq.text(s.args[0] if s.args else MISSING(s)), structural=True)
     loop = cc.find_loop_over(f, lambda n: any(isinstance(x, ast.Name) and x.id == "wav_reader" for x in ast.walk(n.iter)))[0]
     ns = containing_node(cfg, f, s)
     nl = cfg.node(loop)
